@@ -249,6 +249,15 @@ impl Scenario for History {
             cur.insert(f.clone(), t.clone());
             ops.push(HOp::Analyze { file: f, text: t });
         }
+        if self.prop == "C06L" && rng.chance(400) {
+            // the module nobody imports yet is open in the editor, half typed (its buffer does not parse, so nothing is indexed
+            // for it): when an edit starts importing it, its last valid version - the file on disk - is indexed, and the module
+            // that one imports in turn has to be reached through the last valid version as well
+            if let Some(orph) = spec.files.iter().find(|f| f.rel.ends_with("orph/orphan_fixtures.py")) {
+                let text = break_syntax(&mut rng, &render(&orph.items).text);
+                ops.insert(0, HOp::Analyze { file: orph.rel.clone(), text });
+            }
+        }
         if self.prop == "C07" {
             // the user looks into a library module of the virtualenv (go-to-definition into site-packages) and closes it again
             if let Some(lib) = spec.files.iter().find(|f| f.rel.contains("/otherlib/testing_helpers.py")) {
